@@ -11,6 +11,9 @@ trap 'git -C /repo worktree remove --force "$WT" >/dev/null 2>&1' EXIT
 ok=0; bad=0
 for d in seeded/${1:-}*/; do
   name=$(basename "$d"); prop=$(jq -r .property "$d/meta.json")
+  if jq -r .detected_by "$d/meta.json" | grep -q "^NOT CAUGHT"; then
+    echo "OUTSIDE $name: kept for the record, outside the domain of the checks (see its meta.json)"; continue
+  fi
   if ! git -C "$WT" apply "$PWD/$d/patch.diff" 2>/dev/null; then
     echo "STALE  $name: patch no longer applies to /repo HEAD"; bad=$((bad+1)); continue
   fi
